@@ -7,7 +7,7 @@ returns the smaller of the two strands and the flip flag, min_rc its first compo
 Exts::rc as an 8-bit lemma (sides swapped, bases complemented) and its use on flipped observations; flag plumbing: every
 public entry passes its `stranded` argument unchanged to the graph and to the worker, combine keeps it (also when some
 shard graphs are empty); reverse-complemented views (the usual way to hand over an rc read) remap get / get_kmer / slice exactly."""
-from .. import dt_tables, dt_graph, dt_filter, dt_compress, dt_seq, dt_msp, lemmas
+from .. import dt_tables, dt_graph, dt_filter, dt_compress, dt_seq, dt_msp, lemmas, dt_export
 from . import common
 
 ASSUMPTIONS = ["invariance of whole outputs under reverse-complementing reads is a relational fact and is not decided; the clauses above are its mechanisms"]
@@ -32,3 +32,6 @@ def run(F, rep):
     rep.run(dt_msp.score_closure_tables, F, rep, "C06.8")
     rep.run(dt_msp.minpos_order_tables, F, rep, "C06.8")
     rep.run(dt_msp.scan_tables, F, rep, "C06.8")
+    # the sharded / re-compressed variants store shard graphs and read them back: the strandedness flag of a graph must survive that
+    # (a graph whose flag is lost is treated as unstranded: reverse-complement look-ups identify a k-mer with its reverse complement)
+    rep.run(dt_export.serde_rules, F, rep, "C06.9", types=["graph::BaseGraph", "graph::DebruijnGraph"])
